@@ -1237,6 +1237,16 @@ func ruleProxyMiddleware(c *Ctx, a *serverAnchors, want map[string]bool) {
 			for _, e := range pr.Events[P:] {
 				if e.Kind == "call" && e.Callee == a.maxAge {
 					called = true
+					// a positive lifetime of the fetcher is always recorded: nothing else decides cacheability here
+					recorded := false
+					for _, e2 := range pr.Events[P:] {
+						if e2.Kind == "call" && e2.Callee == a.setMax {
+							recorded = true
+						}
+					}
+					if iv := pr.Facts.Interval(e.Result); !recorded && iv.Lo != nil && iv.Lo.Sign() >= 1 {
+						report("lifetime-recorded", "the upstream's answer has a positive lifetime but none is recorded for the fetcher (the key turns hit-for-pass and every waiter goes upstream) on "+where)
+					}
 				}
 			}
 			if !called {
@@ -1246,6 +1256,8 @@ func ruleProxyMiddleware(c *Ctx, a *serverAnchors, want map[string]bool) {
 		if newRespEv == nil {
 			if pr.Results[0].IsNil() {
 				report("response-built", "success path without building the response on "+where)
+			} else {
+				report("response-built", "the upstream answered but the handler returns an error of its own ("+prettyTerm(pr.Results[0])+") before the response is built: the client gets pike's error instead of the upstream's status, headers and body, on "+where)
 			}
 			return
 		}
@@ -1304,7 +1316,7 @@ func ruleProxyMiddleware(c *Ctx, a *serverAnchors, want map[string]bool) {
 		return
 	}
 	for _, r := range []string{"forward-once", "proxy-resolution", "withheld-on-fetch", "restore", "accept-encoding-override", "proxy-deadline",
-		"upstream-error-propagates", "lifetime-plumbing", "location-edits-order", "response-built", "server-settings", "next-restored"} {
+		"upstream-error-propagates", "lifetime-plumbing", "lifetime-recorded", "location-edits-order", "response-built", "server-settings", "next-restored"} {
 		if want != nil && !want[r] {
 			continue
 		}
